@@ -2,7 +2,9 @@ package larking
 
 import (
 	"context"
+	"errors"
 	"fmt"
+	"io"
 	"net"
 
 	"github.com/gobwas/ws"
@@ -95,6 +97,11 @@ func (s *streamWS) RecvMsg(m interface{}) error {
 
 		b, _, err := wsutil.ReadClientData(s.conn)
 		if err != nil {
+			var closed wsutil.ClosedError
+			if errors.As(err, &closed) && closed.Code == ws.StatusNormalClosure {
+				// The client ended the stream normally.
+				return io.EOF
+			}
 			return err
 		}
 		if len(b) > s.opts.maxReceiveMessageSize {
